@@ -95,7 +95,7 @@ theorem fromString_examples :
 
 /-- An accepted configuration went through `prepare`, and its type is the prepared one. -/
 theorem accepted_prepared (c : Config) (hest : c.est ≠ .function) {gp : GPType} {rows cols : Nat}
-    {cls : PredClass} (h : resolve c = .ok gp rows cols cls) : ∃ r, prepare c = .ok r ∧ r.gp = gp := by
+    {cls : PredFamily} (h : resolve c = .ok gp rows cols cls) : ∃ r, prepare c = .ok r ∧ r.gp = gp := by
   rw [resolve_densityLike hest] at h
   obtain ⟨r, lm, hp, _, _, _, _, _, hg, _⟩ := resolveDensityLike_ok h
   exact ⟨r, hp, hg.symm⟩
@@ -272,7 +272,7 @@ theorem negative_rank_counterexample :
     the landmarks given, else `n_landmarks` k-means centres, else (for `fixed` with `n_landmarks ≥ n`)
     all `n` cells; `sparse_nystroem`: at most as many as landmarks, which are fewer than cells. -/
 theorem shape_promise (c : Config) (hest : c.est ≠ .function) {gp : GPType} {rows cols : Nat}
-    {cls : PredClass} (h : resolve c = .ok gp rows cols cls) :
+    {cls : PredFamily} (h : resolve c = .ok gp rows cols cls) :
     rows = c.n ∧ 1 ≤ cols ∧
     (gp = .full → cols = c.n) ∧
     (gp = .fullNystroem → cols ≤ c.n) ∧
@@ -318,7 +318,7 @@ theorem shape_promise (c : Config) (hest : c.est ≠ .function) {gp : GPType} {r
 
 /-- `fixed` keeps the requested inducing points: the landmarks given, else all cells when
     `n_landmarks ≥ n`, else `n_landmarks` of them — never fewer, never none. -/
-theorem fixed_keeps_points (c : Config) (hest : c.est ≠ .function) {rows cols : Nat} {cls : PredClass}
+theorem fixed_keeps_points (c : Config) (hest : c.est ≠ .function) {rows cols : Nat} {cls : PredFamily}
     (h : resolve c = .ok .fixed rows cols cls) :
     ∃ r, prepare c = .ok r ∧ cols = c.landmarks.getD (if c.n ≤ r.nl then c.n else r.nl) ∧
       cls = .landmarksCholesky :=  by
@@ -334,7 +334,7 @@ theorem fixed_keeps_points (c : Config) (hest : c.est ≠ .function) {rows cols 
 /-- The predictor family is the one that belongs to the type: `full`, `full_nystroem` → Full,
     `sparse_cholesky`, `fixed` → Landmarks-Cholesky (latent), `sparse_nystroem` → Landmarks. -/
 theorem pred_matches_type (c : Config) (hest : c.est ≠ .function) {gp : GPType} {rows cols : Nat}
-    {cls : PredClass} (h : resolve c = .ok gp rows cols cls) : cls = gp.family := by
+    {cls : PredFamily} (h : resolve c = .ok gp rows cols cls) : cls = gp.family := by
   rw [resolve_densityLike hest] at h
   obtain ⟨r, lm, hp, _, _, hcl, _, _, hg, hcls⟩ := resolveDensityLike_ok h
   obtain ⟨_, _, _, _, hsc, hsn⟩ := computeL_inr hcl
@@ -356,7 +356,7 @@ theorem pred_matches_type (c : Config) (hest : c.est ≠ .function) {gp : GPType
 /-- `predictor_with_uncertainty` is only accepted together with the optimizer that provides the
     input uncertainty (`advi`); with a point optimizer the configuration is refused. -/
 theorem uncertainty_needs_advi (c : Config) (hest : c.est ≠ .function) {gp : GPType} {rows cols : Nat}
-    {cls : PredClass} (h : resolve c = .ok gp rows cols cls) (hu : c.withUnc = true) : c.opt = .advi := by
+    {cls : PredFamily} (h : resolve c = .ok gp rows cols cls) (hu : c.withUnc = true) : c.opt = .advi := by
   rw [resolve_densityLike hest] at h
   obtain ⟨_, _, _, _, _, _, _, hunc, _, _⟩ := resolveDensityLike_ok h
   by_contra hne
